@@ -198,6 +198,14 @@ def h_add_input(W, ob):
     ok = ok and len(st) == 1 and key(cx.expr_rvalue(st[0]['site'].rv)) == 'arg2.frame'
     ob.check(ok, 'add_input|sequence', 'add_input accepts only the successor of the last user frame, records it, positions the head and stores the input at the returned frame',
              'InputQueue::add_input lost part of its sequence / positioning logic', where(f))
+    # a rejected submission (not the successor of the last user frame) changes nothing: the first value of that frame has already been sent
+    cfgf = cfg_of(f)
+    rej = [b.id for b in f.blocks if not b.cleanup and b.id in cfgf.reach and
+           G.guard(b.id) and dnf_implies_atom(G.guard(b.id), ne(['arg2.frame'], ['self.last_user_frame'], 1))]
+    eff = [w for w in W.writes() if w['fn'] is f and w['bb'] in rej and w['ap'].s(f).startswith('self')]
+    ob.check(bool(rej) and not eff, 'add_input|rejection-is-pure', 'an input that is not the successor of the last user frame is rejected without touching the queue',
+             'InputQueue::add_input writes `%s` on the path that rejects a non-sequential (e.g. re-submitted) input: the owner then simulates a value its peers never received'
+             % (eff[0]['ap'].s(f, generic=True) if eff else 'no rejection arm found'), where(f, eff[0]['line'] if eff else None))
     h = W.fn(IQ + '::advance_queue_head')
     cxh = W.ctx(h)
     # the frame the input lands on is input_frame + frame_delay
